@@ -692,7 +692,9 @@ def obligations(tier):
     for N, T in ([(2, 2), (2, 3), (3, 2)]):
         obs.append((ob_mi_range, dict(name=f"C10|histogram MI range (surrogates)|N={N},T={T}", N=N, T=T, nb=2), 900))
     for which in ("climate", "surrogates"):
-        for N, T, nb in ([(2, 2, 2), (2, 3, 2)] + ([(3, 2, 2), (2, 3, 3), (3, 3, 2)] if th else [])):
+        # (the case split has bins^(N*T) patterns for one array and bins^(2*N*T) for two: larger surrogate sizes exhaust the budget)
+        extra = ([(3, 2, 2), (2, 3, 3), (3, 3, 2)] if which == "climate" else [(3, 2, 2)]) if th else []
+        for N, T, nb in ([(2, 2, 2), (2, 3, 2)] + extra):
             obs.append((ob_mi_kernel, dict(name=f"C10|histogram MI ({which})|N={N},T={T},bins={nb}", which=which, N=N, T=T, nb=nb), 2400))
     for T, N in ([(3, 2), (4, 1)] + ([(4, 2), (5, 1)] if th else [])):
         obs.append((ob_ranks, dict(name=f"C10|Spearman ranks|T={T},N={N}", T=T, N=N), 1800))
